@@ -348,9 +348,7 @@ where
     I: Identifier,
 {
     fn init(&self, _problem: &P, state: &mut State<P>) -> ExecResult<()> {
-        state
-            .entry::<BestParticle<P, I>>()
-            .or_insert(BestParticle::<P, I>::new(None));
+        state.insert(BestParticle::<P, I>::new(None));
         Ok(())
     }
 
